@@ -62,6 +62,11 @@ class Err:
         return hash(("Err", self.code))
 
 
+def is_err(x, code=None):
+    """x is an Err (with that code); never calls x.__eq__ (PreferenceInterval.__eq__ raises on foreign types)."""
+    return isinstance(x, Err) and (code is None or x.code == (code if isinstance(code, int) else Err.CODES[code]))
+
+
 class S(list):
     """An unordered collection (set or multiset)."""
 
